@@ -424,10 +424,18 @@ class Wtp:
     def backup_db(self) -> None:
         self.backup_db_path.unlink(True)
         self.db_conn.commit()
-        backup_conn = sqlite3.connect(self.backup_db_path)
+        # Write the copy under a temporary name and rename it when it is
+        # complete: create_db() replaces the database by the backup file
+        # whenever one exists, so a partial file must never carry its name.
+        tmp_path = self.backup_db_path.with_name(
+            self.backup_db_path.name + ".tmp"
+        )
+        tmp_path.unlink(True)
+        backup_conn = sqlite3.connect(tmp_path)
         with backup_conn:
             self.db_conn.backup(backup_conn)
         backup_conn.close()
+        tmp_path.rename(self.backup_db_path)
 
     def close_db_conn(self) -> None:
         assert self.db_path
